@@ -1,12 +1,12 @@
 /-
   Oracle commands for C14 (stop strings + UTF-8 streaming):
-    find <seq> <n> <stop>*                 -> none | some <stop>
+    find <pinned 0|1> <seq> <n> <stop>*    -> none | some <stop>
     suffix <seq> <n> <stop>*               -> true | false
     trunc <n> <piece>* <stop>              -> <n> <piece>* <0|1>
     incomplete <s>                         -> true | false
     valid <s>                              -> true | false
     flush <n> <piece>*                     -> none | some <chunk>
-    loop <limit> <n> <stop>* <m> <ev>*     -> <reason> np=<k> out=<n> <chunk>* pend=<n> <piece>*
+    loop <pinned 0|1> <limit> <n> <stop>* <m> <ev>* -> <reason> np=<k> out=<n> <chunk>* pend=<n> <piece>*
         ev = E (end of sequence) | <piece>
   Byte strings are hex, `-` is the empty string.
 -/
@@ -31,9 +31,10 @@ def handle (toks : List String) : Option String :=
   match toks with
   | "find" :: rest =>
     runTP (do
+      let pinned ← nat
       let s ← hex
       let stops ← listOf hex
-      pure (match findStop s stops with
+      pure (match findStopV (pinned != 0) s stops with
         | none => "none"
         | some st => s!"some {hexOrDash st}")) rest
   | "suffix" :: rest =>
@@ -63,10 +64,11 @@ def handle (toks : List String) : Option String :=
         | some c => s!"some {hexOrDash c}")) rest
   | "loop" :: rest =>
     runTP (do
+      let pinned ← nat
       let limit ← int
       let stops ← listOf hex
       let evs ← listOf pEv
-      let st := run limit stops init evs
+      let st := run (pinned != 0) limit stops init evs
       let reason := match st.done with
         | none => "running"
         | some .stop => "stop"
